@@ -122,7 +122,9 @@ func c19ExpectedSize(cs *c03Case, evs []c03Ev) (int64, bool) {
 		}
 	}
 	if cs.cfg.persistent && size != 0 {
-		return 0, false // persistent_queue resets its size when everything has been dispatched: only "nothing outstanding" is compared
+		// persistent_queue resets its size when everything has been dispatched: equality only for "nothing outstanding"; otherwise the
+		// UPPER BOUND "gauge <= sizes of the requests whose Done has not fired" (Lean: C19_gauge_persistent_le) — negative = bound
+		return -size, false
 	}
 	return size, true
 }
@@ -145,12 +147,27 @@ func c19Corpus() []*c03Case {
 	}
 }
 
+// corpus cases added later: run AFTER the shared ones so that no earlier case index moves
+func c19CorpusTail() []*c03Case {
+	ms := time.Millisecond
+	send := func(at time.Duration, rid, n int) c03Act { return c03Act{at: at, rid: rid, n: n} }
+	sd := func(at time.Duration) c03Act { return c03Act{at: at, shutdown: true} }
+	return []*c03Case{
+		// persistent queue sized by items, one consumer: request 1 (slow) is read alone (size reset to 0), 2-4 arrive behind it (size 8);
+		// 1 ends (clamped release), 2 fails permanently, 3 is in a slow call and 4 still queued when the gauge is read before send 6:
+		// size gauge <= 2+2, the sizes of the requests whose Done has not fired (C19_gauge_persistent_le; the real value is 1)
+		{cfg: c03Cfg{queue: true, persistent: true, sizer: "items", capacity: 100, consumers: 1},
+			acts:    []c03Act{send(0, 1, 3), send(ms, 2, 4), send(2*ms, 3, 2), send(3*ms, 4, 2), send(2000*ms, 6, 1), sd(20 * time.Second)},
+			backend: []c03Call{{time.Second, 0}, {0, 2}, {5 * time.Second, 0}, {0, 0}, {0, 0}}},
+	}
+}
+
 func TestVerifC19Exporter(t *testing.T) {
 	out := vOpen(t)
 	defer out.Close()
 	out.Linef("model c19-exp 1")
 	n := vN(300)
-	corpus := append(c19Corpus(), c03Corpus()...)
+	corpus := append(append(c19Corpus(), c03Corpus()...), c19CorpusTail()...)
 	synctest.Test(t, func(t *testing.T) {
 		for _, c := range vCases(n) {
 			var cs *c03Case
@@ -163,7 +180,7 @@ func TestVerifC19Exporter(t *testing.T) {
 			set := exportertest.NewNopSettings(exportertest.NopType)
 			set.TelemetrySettings = tel.NewTelemetrySettings()
 			direct := !cs.cfg.queue && cs.cfg.batch == 0 // no queue: no gauges, no enqueue-failed counter
-			nGauge, nComparable := 0, 0
+			nGauge, nComparable, nBounded := 0, 0, 0
 			run := c03Exec(cs, set, func(run *c03Run) {
 				// called at quiescent points: before some of the sends (requests queued, batched, in flight, in back-off) and just
 				// before Shutdown is requested.  (After Shutdown the gauges are gone: obsQueue.Shutdown unregisters the callbacks.)
@@ -196,12 +213,16 @@ func TestVerifC19Exporter(t *testing.T) {
 					expCap = math.MaxInt
 				}
 				es := "?"
+				mx := "?"
 				nGauge++
 				if known {
 					es = c03Join([]int{int(exp)})
 					nComparable++
+				} else if exp < 0 {
+					mx = c03Join([]int{int(-exp)})
+					nBounded++
 				}
-				run.log(c03Ev{kind: "gauge", s: "size=" + c03Join([]int{int(size)}) + " cap=" + c03D(time.Duration(capv)) + " expsize=" + es + " expcap=" + c03D(time.Duration(expCap))})
+				run.log(c03Ev{kind: "gauge", s: "size=" + c03Join([]int{int(size)}) + " cap=" + c03D(time.Duration(capv)) + " expsize=" + es + " expcap=" + c03D(time.Duration(expCap)) + " maxsize=" + mx})
 			})
 			c03EmitOps(out, c, cs)
 			if run.buildErr != nil {
@@ -240,6 +261,7 @@ func TestVerifC19Exporter(t *testing.T) {
 			out.Linef("stat gauge_reads %d", nGauge)
 			out.Linef("stat gauge_size_compared %d", nComparable)
 			out.Linef("stat gauge_size_not_comparable %d", nGauge-nComparable)
+			out.Linef("stat gauge_size_bounded_persistent %d", nBounded)
 			if (cs.cfg.batch == 0 || cs.cfg.wrap) && !direct && v.returned {
 				out.Linef("stat lts_replayable 1")
 			} else {
